@@ -181,6 +181,12 @@ def build_cases(run):
     for name, e, args, cm in G.probes():
         nm = "".join(ch if ch.isalnum() else "P" if ch == "+" else "M" if ch == "-" else "_" for ch in name)
         cases.append({"name": f"p_{nm}_{'c' if cm else 'r'}", "e": e, "args": args, "cm": cm, "probe": name})
+    for name, e, args, cm in G.small_scope(run.tier):
+        try:
+            ufl2coq.Ser(G.C14Ctx()).expr(e)
+        except ufl2coq.Unsupported:
+            continue
+        cases.append({"name": f"s_{name}_{'c' if cm else 'r'}", "e": e, "args": args, "cm": cm, "probe": name})
     n = 200 if run.tier == "quick" else 3000
     gen = G.Gen(1000 + run.seed)
     k = fails = 0
